@@ -1757,7 +1757,7 @@ class virtualQubit(pb.Referenceable):
             # Release the lock since this is not anymore the simulating one and try again
             self._logger.debug("simulating node changed, releasing and trying again")
             yield call_method(curr_sim_node.root, "release_global_lock")
-            locked_node = yield self._lock_simulating_node()
+            locked_node = yield self._lock_simulating_node(exclude=exclude)
             return locked_node
         else:
             self._logger.debug("got lock of simulating node {curr_sim_node}")
